@@ -240,7 +240,7 @@ func run(r *report.Report) {
 		{"live-w1", params{Mode: "live", Window: 1, Msgs: 2}, 1}, {"live-w2", params{Mode: "live", Window: 2, Msgs: 3}, 1}}
 	if th {
 		cfgs = []c{{"resume-w2", params{Mode: "resume", Window: 2}, 4}, {"resume-w3", params{Mode: "resume", Window: 3}, 3}, {"resume-w4", params{Mode: "resume", Window: 4}, 3},
-			{"live-w1", params{Mode: "live", Window: 1, Msgs: 3}, 2}, {"live-w2", params{Mode: "live", Window: 2, Msgs: 3}, 2}, {"live-w1-b3", params{Mode: "live", Window: 1, Msgs: 2}, 3}}
+			{"live-w1", params{Mode: "live", Window: 1, Msgs: 3}, 2}, {"live-w2", params{Mode: "live", Window: 2, Msgs: 3}, 2}}
 	}
 	// client library: inbound messages reach the callback in arrival order; service commands are executed first-in first-out
 	d10, d17 := 6, 5
